@@ -49,6 +49,16 @@ class PProbe(edzed.AddonPersistence, Probe):
         self.set_output(state)
 
 
+class EmptyErrors(RuntimeError):
+    """an exception object that is falsy (an aggregate of errors that happens to be empty): still an
+    error the simulation was stopped with"""
+    def __bool__(self):
+        return False
+
+    def __len__(self):
+        return 0
+
+
 class C14(common.Spec):
     imports = IMPORTS
     case_type = 'c14case'
@@ -197,7 +207,7 @@ class C14(common.Spec):
                 sh = asyncio.create_task(circuit.shutdown())
                 await asyncio.sleep(0)
             elif abort_how == 'abort':
-                circuit.abort(RuntimeError('abort by the application'))
+                circuit.abort(EmptyErrors('abort by the application'))
             elif abort_how == 'handler':
                 try:
                     dests['p'].event('boom')
